@@ -219,6 +219,19 @@ def generate(rng: Prng, tier: str) -> dict:
     hist = rng.stream("history")
     cfg = gen_int_config(w) if hist.chance(0.12) else gen_config(w)
     cfg["shared_order"] = hist.choice(["far_first", "near_first"])
+    eh = rng.stream("estimate")
+    if eh.chance(0.2):
+        cfg["estimate_first"] = eh.choice([50, 200, 1000])
+    if cfg.get("ints") and eh.chance(0.25):
+        # integer-typed solids thousands of kilometres across: every length a Python / NumPy integer beyond 2**21
+        # (whose cube leaves the 64-bit integer range)
+        k = eh.choice([10**6, 3 * 10**6, 10**9])
+        for key in ("r1", "r2", "h", "rb", "d"):
+            cfg[key] = cfg[key] * k
+        cfg["offset"] = [v * k for v in cfg["offset"]]
+        cfg["huge_ints"] = True
+        cfg["axis"] = eh.choice([[1.0, 0.0, 0.0], [0.0, -1.0, 0.0], [0.0, 0.0, 1.0]])  # products stay exact integers
+        cfg["dir2"] = eh.choice([[1.0, 0.0, 0.0], [0.0, 1.0, 0.0], [0.0, 0.0, -1.0]])
     if not cfg.get("ints") and cfg["taper"] == "band" and hist.chance(0.5):
         # an almost-cylindrical frustum some ten thousand units from the origin: whether the generatrix is found to
         # meet the sphere is then decided by rounding noise and by the random helper vector
@@ -273,6 +286,21 @@ def evaluate(cfg: dict) -> dict:
     scribble = bool(cfg.get("scribble"))
 
     ints = cfg.get("ints")
+    est = cfg.get("estimate_first")
+
+    def estimate(o):
+        # a sampled estimate asked of the object first (the Monte-Carlo front end `get_volume(n_samples=...)`): nothing
+        # is demanded of that call - the pinned closed-form classes refuse it - but the plain call afterwards is the
+        # property's subject and must not be coloured by it
+        if est:
+            try:
+                o.get_volume(n_samples=est)
+            except Exception:  # noqa: BLE001
+                pass
+
+    def vol(o):
+        estimate(o)
+        return o.get_volume()
 
     def as_input(c):
         if not ints:
@@ -284,6 +312,7 @@ def evaluate(cfg: dict) -> dict:
     def S(c, r):
         a = as_input(c)
         o = VolSphere(a, r)
+        estimate(o)
         if scribble and isinstance(a, np.ndarray):  # the caller reuses its buffer: the solid must not move with it
             a *= -3
             a += 11
@@ -292,40 +321,41 @@ def evaluate(cfg: dict) -> dict:
     def F(ca, ra, cb_, rb_):
         a, b = as_input(ca), as_input(cb_)
         o = VolFrustumCone(a, ra, b, rb_)
+        estimate(o)
         if scribble and isinstance(a, np.ndarray):
             a += 5
             b *= 2
         return o
 
     out = {}
-    out["sphere"] = S(c1, r1).get_volume()
+    out["sphere"] = vol(S(c1, r1))
     for i, f in enumerate(cfg["caps"]):
         out[f"cap{i}"] = S(c1, r1).get_volume_spherical_cap(f * r1)
-    out["frustum"] = F(c1, r1, c2, r2).get_volume()
-    out["ss_intersect"] = S(c1, r1).intersect(S(cb, rb)).get_volume()
-    out["ss_intersect_rev"] = S(cb, rb).intersect(S(c1, r1)).get_volume()
-    out["ss_union"] = S(c1, r1).union(S(cb, rb)).get_volume()
-    out["ss_union_rev"] = S(cb, rb).union(S(c1, r1)).get_volume()
-    out["sf_near_intersect"] = S(c1, r1).intersect(F(c1, r1, c2, r2)).get_volume()
-    out["sf_near_union"] = S(c1, r1).union(F(c1, r1, c2, r2)).get_volume()
-    out["sf_near_union_rev"] = F(c1, r1, c2, r2).union(S(c1, r1)).get_volume()
-    out["sf_far_intersect"] = S(c2, r2).intersect(F(c1, r1, c2, r2)).get_volume()
-    out["sf_far_union"] = S(c2, r2).union(F(c1, r1, c2, r2)).get_volume()
+    out["frustum"] = vol(F(c1, r1, c2, r2))
+    out["ss_intersect"] = vol(S(c1, r1).intersect(S(cb, rb)))
+    out["ss_intersect_rev"] = vol(S(cb, rb).intersect(S(c1, r1)))
+    out["ss_union"] = vol(S(c1, r1).union(S(cb, rb)))
+    out["ss_union_rev"] = vol(S(cb, rb).union(S(c1, r1)))
+    out["sf_near_intersect"] = vol(S(c1, r1).intersect(F(c1, r1, c2, r2)))
+    out["sf_near_union"] = vol(S(c1, r1).union(F(c1, r1, c2, r2)))
+    out["sf_near_union_rev"] = vol(F(c1, r1, c2, r2).union(S(c1, r1)))
+    out["sf_far_intersect"] = vol(S(c2, r2).intersect(F(c1, r1, c2, r2)))
+    out["sf_far_union"] = vol(S(c2, r2).union(F(c1, r1, c2, r2)))
     # the same frustum described from its other end
-    out["sf_near_intersect_flip"] = S(c1, r1).intersect(F(c2, r2, c1, r1)).get_volume()
+    out["sf_near_intersect_flip"] = vol(S(c1, r1).intersect(F(c2, r2, c1, r1)))
     # one frustum object used again after a sphere-frustum evaluation: it must still be the same solid
     fr = F(c1, r1, c2, r2)
-    S(c1, r1).intersect(fr).get_volume()
-    out["frustum_reused"] = fr.get_volume()
-    out["sf_near_union_reused"] = S(c1, r1).union(fr).get_volume()
+    vol(S(c1, r1).intersect(fr))
+    out["frustum_reused"] = vol(fr)
+    out["sf_near_union_reused"] = vol(S(c1, r1).union(fr))
     # ONE frustum object met by the spheres at both of its ends, in either order: which end a sphere sits on is a
     # fact about the (sphere, frustum) pair, not something the frustum may remember from the first sphere it met
     fr2 = F(c1, r1, c2, r2)
     order = ["far", "near"] if cfg.get("shared_order") == "far_first" else ["near", "far"]
     for end in order:
         sc, sr = (c1, r1) if end == "near" else (c2, r2)
-        out[f"sf_{end}_intersect_shared"] = S(sc, sr).intersect(fr2).get_volume()
-        out[f"sf_{end}_union_shared"] = S(sc, sr).union(fr2).get_volume()
+        out[f"sf_{end}_intersect_shared"] = vol(S(sc, sr).intersect(fr2))
+        out[f"sf_{end}_union_shared"] = vol(S(sc, sr).union(fr2))
     return {k: float(v) for k, v in out.items()}, axis
 
 
